@@ -9,6 +9,34 @@ pub fn catch<T>(f: impl FnOnce() -> T) -> Option<T> {
   panic::catch_unwind(AssertUnwindSafe(f)).ok()
 }
 
+/// events written so far by all sinks: the watchdog's notion of progress
+pub static PROGRESS: std::sync::atomic::AtomicU64 = std::sync::atomic::AtomicU64::new(0);
+/// producers that legitimately spend long without writing (waiting for fresh processes) tick this by hand
+pub fn tick() {
+  PROGRESS.fetch_add(1, std::sync::atomic::Ordering::Relaxed);
+}
+
+/// A call into the library that never returns cannot be caught by `catch`: a watchdog thread ends the harness with exit
+/// code 4 when no event has been written for `stall` seconds.  The driver reports that as a violation (a request that
+/// never returns), not as a tool error.
+pub fn watchdog(stall: u64) {
+  std::thread::spawn(move || {
+    let mut last = PROGRESS.load(std::sync::atomic::Ordering::Relaxed);
+    let mut since = std::time::Instant::now();
+    loop {
+      std::thread::sleep(std::time::Duration::from_secs(2));
+      let now = PROGRESS.load(std::sync::atomic::Ordering::Relaxed);
+      if now != last {
+        last = now;
+        since = std::time::Instant::now();
+      } else if since.elapsed().as_secs() >= stall {
+        println!("HANG no event for {} s after {} events: a call into the library does not return", stall, now);
+        std::process::exit(4);
+      }
+    }
+  });
+}
+
 pub fn silence_panics() {
   panic::set_hook(Box::new(|_| {}));
 }
@@ -136,6 +164,7 @@ impl Sink {
     }
   }
   pub fn put(&mut self, line: String) {
+    PROGRESS.fetch_add(1, std::sync::atomic::Ordering::Relaxed);
     if self.w.is_none() {
       self.open();
     }
